@@ -73,6 +73,56 @@ CLAIMED = {
              'the low byte; zerountil size = max(0, a-addr+1); strings one byte per character, terminator appended for cstr/asciiz. '
              'Tied to the code by differential runs of string directives (escapes, both quotes, all terminators) and whole programs.',
         ref='DESIGN.md §6 C11', technique='Coq proofs over data-directive model + string/whole-program correspondence'),
+    'C10': dict(
+        text='Theorems: the bytes of an instruction sequence are the concatenation of its instructions\' bytes, each assembled at '
+             'the address where the previous one ends, and its size is the sum of their sizes (so a macro = its expansion); '
+             'placeholders that cannot be filled make the substitution fail. Tied to the code by generated instruction sets with '
+             'macros (variants, steps that are not whole bytes, relative operands, all three placeholder kinds) whose invocations '
+             'are assembled by the real Assembler and by the matching model.',
+        ref='DESIGN.md §6 C10', technique='Coq proofs over macro/sequence model + generated-ISA whole-program correspondence'),
+    'C13': dict(
+        text='Theorems: the selected variant is the first in definition order that accepts (and nothing is selected if none does); '
+             'listed combinations before operand sets; disallowed combinations skipped; alternatives of a set tried in the order of '
+             'the documented type priority, stable w.r.t. definition order; a register name is never accepted as numeric/address. '
+             'Tied to the code by deliberately ambiguous generated ISA definitions (overlapping variants, asymmetric disallowed '
+             'pairs, all operand types) assembled by the real Assembler and by the matching model.',
+        ref='DESIGN.md §6 C13', technique='Coq proofs over operand-matching model + generated-ISA whole-program correspondence'),
+    'C14': dict(
+        text='Partial. Theorems: the expression parser never exhausts its fuel; the image has exactly the window length (the '
+             'emission cannot spin); success is never reported for an unresolvable label, unknown mnemonic, statement no variant '
+             'accepts, or value that does not fit; an image exists only in a successful outcome (by the model\'s result type). '
+             'Termination of the real process and file-level fail-closedness are observed: real CLI under a wall-clock limit on '
+             'valid, faulty and garbled programs with a pre-seeded output file.',
+        ref='DESIGN.md §6 C14', technique='Coq proofs (fuel bound, no false success) + CLI fail-closed oracle with timeout',
+        note='Process-level termination (regex backtracking, interpreter) is observed with a timeout, not proved.'),
+    'C15': dict(
+        text='Partial. Theorems: include-directory lookup, register membership and the address sort are invariant under the '
+             'orderings the code leaves to hash order; the model has no hidden input. Observed: fresh CLI processes under different '
+             'hash seeds, environments, working directories and include-directory orders produce byte-identical images, listings '
+             'and hex outputs (and equal the model).',
+        ref='DESIGN.md §6 C15', technique='Coq permutation-invariance proofs + multi-process determinism oracle',
+        note='The interpreter hash function itself is only sampled over seeds.'),
+    'C16': dict(
+        text='Partial. Theorems: compact-hex record printer/decoder round trip for every line list; listing rows and the '
+             'address-to-byte pairs every format must decode to are exactly the bytes of unmuted lines the image theorem uses; '
+             'muted lines contribute nothing; each statement listed once. Tied to the code by decoding the real listing, hex dump, '
+             'Intel HEX and compact hex outputs and comparing each with the model\'s map and image.',
+        ref='DESIGN.md §6 C16', technique='Coq proofs over format model + four-format decode-and-compare correspondence',
+        note='Character-level decoding of the output text is done by harness decoders; Intel HEX text comes from the intelhex package.'),
+    'C17': dict(
+        text='Theorems on the reader: a file included twice, missing or ambiguous is rejected; after an include the includer\'s '
+             'region, zone, condition stack and mute counter are unchanged and the included lines are spliced in place; the '
+             'included file starts in GLOBAL with a fresh file scope; lookups never cross files. Paste equivalence itself is checked '
+             'as a relation on two implementation runs (split vs pasted text) for generated programs meeting the side conditions, '
+             'plus the whole-program correspondence with nested includes and include faults.',
+        ref='DESIGN.md §6 C17', technique='Coq proofs over reader model + whole-program correspondence + split-vs-pasted oracle'),
+    'C18': dict(
+        text='Partial. Theorems: letter case of mnemonics and of register operands carries no meaning in the matching model. '
+             'Whitespace, tabs, comments, blank lines, label placement and several instructions per line are layout applied by the '
+             'renderer: the implementation fed randomly laid-out text must still agree with the layout-free model, and a relayout '
+             'oracle compares canonical vs re-laid-out text on the implementation directly.',
+        ref='DESIGN.md §6 C18', technique='Coq proofs (case-insensitivity) + layout correspondence + relayout oracle',
+        note='The line-splitting regular expressions are exercised, not modelled.'),
 }
 
 ALL = [f'C{i:02d}' for i in range(1, 21)]
